@@ -25,7 +25,14 @@ and the form of every caller in the library and the examples - ``**image.shape_m
 (space_dim, num_voxels, dimensions *and* voxel_size of an Image) with the weights by keyword
 (``ExtrudedGeometry(expansion=depth, **shape_meta)``,
 ``ExtrudedPorousGeometry(depth=..., porosity=..., **shape_meta)``).  Scalar weights are python
-floats, python ints (depth 1 or 2) or numpy floats.
+floats, python ints (depth 1 or 2) or numpy floats.  ``dimensions`` may come with a voxel size
+that does not belong to it (ctor ``meta_other``: the shape metadata of an image of the same
+domain on another voxelization with ``num_voxels`` replaced; ctor ``both``: an explicit foreign
+``voxel_size``): dimensions overrule the voxel size (documented), the voxels are
+dimensions / num_voxels.
+
+normalize_history (section 8): Image objects of a pool are re-used over several normalize()
+calls on one geometry, their contents replaced / rescaled in place between the calls.
 """
 import math
 
@@ -76,12 +83,28 @@ def geo_specs(draw, dims=(1, 2, 3), classes=CLASSES):
             # how a scalar weight is written: 0.75, 2 (int), np.float64(0.75)
             "sform": draw(st.sampled_from(["float", "float", "int", "npfloat"])),
         })
-    ctor = draw(st.sampled_from(["dimensions", "voxel_size", "shape_meta"]))
-    return {"cls": cls, "dim": dim, "base": base, "m": m, "vox": vox, "vk": vk,
-            "ctor": ctor, "weights": weights,
-            # weights by keyword (always with shape_meta: the call form of the callers)
-            "kwcall": ctor == "shape_meta" or draw(st.integers(0, 3)) == 0,
-            "nv_extra": draw(st.sampled_from([[], [], [], [3], [2, 3], [1]]))}
+    ctor = draw(st.sampled_from(["dimensions", "dimensions", "voxel_size", "voxel_size",
+                                 "shape_meta", "shape_meta", "meta_other", "both"]))
+    geo = {"cls": cls, "dim": dim, "base": base, "m": m, "vox": vox, "vk": vk,
+           "ctor": ctor, "weights": weights,
+           # weights by keyword (always with shape metadata: the call form of the callers)
+           "kwcall": ctor in ("shape_meta", "meta_other") or draw(st.integers(0, 3)) == 0,
+           "nv_extra": draw(st.sampled_from([[], [], [], [3], [2, 3], [1]]))}
+    if ctor == "meta_other":
+        # the shape metadata of an image of the same domain on another voxelization
+        # (at least one axis differs), num_voxels replaced by the geometry's own
+        nat = [b * mi for b, mi in zip(base, m)]
+        other = [draw(st.integers(1, MAXN[dim])) for _ in range(dim)]
+        if other == nat:
+            j = draw(st.integers(0, dim - 1))
+            other[j] = nat[j] + 1 if nat[j] < MAXN[dim] else nat[j] - 1
+        geo["other"] = other
+    elif ctor == "both":
+        # dimensions together with a voxel size that does not belong to them (a default
+        # such as [1, 1, 1], the voxel size of another voxelization, ...)
+        geo["vox_given"] = draw(st.one_of(
+            st.just([1.0] * dim), gens.voxel_sizes(dim, "generic"), gens.voxel_sizes(dim, "pow2")))
+    return geo
 
 
 @st.composite
@@ -241,6 +264,18 @@ def build_geometry(geo, args=None):
         # (space_dim, num_voxels, dimensions and the matching voxel_size)
         kw = darsia.Image(np.zeros(shape), space_dim=geo["dim"],
                           dimensions=_dimensions(geo)).shape_metadata()
+    elif geo["ctor"] == "meta_other":
+        # the shape metadata of an image of the same domain with another voxelization,
+        # re-used for this one: dimensions (documented to overrule voxel_size) and
+        # num_voxels define the voxels, the voxel size of the other image comes along
+        kw = dict(darsia.Image(np.zeros(geo["other"]), space_dim=geo["dim"],
+                               dimensions=_dimensions(geo)).shape_metadata())
+        kw["num_voxels"] = list(shape)
+    elif geo["ctor"] == "both":
+        # dimensions overrule the voxel size given along with them
+        kw = {"space_dim": geo["dim"],
+              "num_voxels": list(shape) + list(geo.get("nv_extra", [])),
+              "dimensions": _dimensions(geo), "voxel_size": list(geo["vox_given"])}
     else:
         # the constructor truncates num_voxels to space_dim entries so that a full array
         # shape (with time / component axes) may be passed
@@ -436,6 +471,9 @@ def _rclass(geo, r):
 def _labels(geo, data, rs=()):
     labs = [geo["cls"], f"dim{geo['dim']}", f"weight-{_wclass(geo)}", f"data-{_dclass(data)}",
             f"vox-{geo['vk']}", f"ctor-{geo['ctor']}"]
+    if geo["ctor"] == "meta_other" or (
+            geo["ctor"] == "both" and list(geo["vox_given"]) != list(geo["vox"])):
+        labs.append("ctor:dimensions+foreign-voxel-size")
     if geo.get("kwcall") and geo["weights"]:
         labs.append("weights-by-keyword")
     for sf in sorted({w.get("sform", "float") for w in geo["weights"] if w["kind"] == "scalar"}):
@@ -999,10 +1037,139 @@ def check_shared(case):
 
 
 # ---------------------------------------------------------------------------------------
+# 8. normalize / integrate on one geometry with re-used, updated Image objects
+# ---------------------------------------------------------------------------------------
+#
+# Images are mutable objects of a user's program: a baseline is refreshed (``ref.img = ...``),
+# a signal is rescaled in place (``img.img *= 2``), and the same objects are handed to the
+# same geometry again.  normalize() / integrate() are functions of the *current contents* of
+# their arguments: every call gives what a fresh geometry gives for fresh Image objects with
+# the same contents, and the integral of the normalised image equals the integral of the
+# reference as it is at the time of the call.  Case layout::
+#
+#     pool  = [{r, pseed}]                      Image objects (positive data, resolution r)
+#     steps = [{img, ref, upd}]                 normalize(pool[img], pool[ref]) after the update
+#     upd   = None | {obj, how, pseed, factor}  how: replace (obj.img = new array) /
+#                                               assign (obj.img[...] = new) / scale (obj.img *= f)
+
+
+def gen_normalize_history(tier):
+    @st.composite
+    def strat(draw):
+        geo = draw(geo_specs())
+        kinds = _res_kinds(geo)
+        if _has_array_weight(geo) and geo["dim"] != 2:
+            kinds = ("native",)  # (resized data: documented ValueError, see sub-check 3)
+        npool = draw(st.sampled_from([2, 2, 3]))
+        pool = [{"r": draw(resolutions(geo, kinds)), "pseed": draw(st.integers(0, 2**20))}
+                for _ in range(npool)]
+        steps = []
+        for k in range(draw(st.sampled_from([2, 2, 3, 3, 4]))):
+            if k > 0 and draw(st.integers(0, 3)) > 0:
+                # the same reference object again (one baseline, many images) ...
+                ref = steps[-1]["ref"]
+            else:
+                ref = draw(st.integers(0, npool - 1))
+            img = draw(st.sampled_from([i for i in range(npool) if i != ref]))
+            upd = None
+            if k > 0 and draw(st.integers(0, 4)) > 0:
+                # ... with new contents in about half of the updates, else any object
+                obj = ref if draw(st.booleans()) else draw(st.integers(0, npool - 1))
+                upd = {"obj": obj,
+                       "how": draw(st.sampled_from(["replace", "assign", "scale"])),
+                       "pseed": draw(st.integers(0, 2**20)),
+                       "factor": draw(st.sampled_from([0.25, 0.5, 2.0, 3.0, 4.0]))}
+            steps.append({"img": img, "ref": ref, "upd": upd})
+        return {"geo": geo, "data": draw(data_specs()), "pool": pool, "steps": steps}
+
+    return strat()
+
+
+def check_normalize_history(case):
+    geo, data, pool, steps = case["geo"], case["data"], case["pool"], case["steps"]
+    m = list(geo["m"])
+    rs = [p["r"] for p in pool]
+    gg = _gcd_grid(geo, rs)
+    # model: the field of every pool object on the common grid; objects: the user's Images
+    flds = [_field(geo, data, gg, p["pseed"], positive=True) for p in pool]
+    objs = [_wrap(_prolong(f, gg, p["r"]).copy(), geo, data, "image") for f, p in zip(flds, pool)]
+    g = build_geometry(geo)
+    t = _tags(geo, data)
+    as_ref = {}  # pool index -> version of its contents when last used as reference
+    version = [0] * len(pool)
+    classes = set()
+    for k, s in enumerate(steps):
+        upd = s["upd"]
+        if upd is not None:
+            o = upd["obj"]
+            if upd["how"] == "scale":
+                flds[o] = flds[o] * upd["factor"]  # (dyadic x small factor: exact)
+                objs[o].img *= upd["factor"]
+            else:
+                flds[o] = _field(geo, data, gg, upd["pseed"], positive=True)
+                new = _prolong(flds[o], gg, pool[o]["r"]).copy()
+                if upd["how"] == "replace":
+                    objs[o].img = new
+                else:
+                    objs[o].img[...] = new
+            version[o] += 1
+        i, j = s["img"], s["ref"]
+        ri, rj = pool[i]["r"], pool[j]["r"]
+        if j in as_ref:
+            cl = "ref-object-reused:" + ("updated" if as_ref[j] != version[j] else "unchanged")
+        else:
+            cl = "ref-object-new"
+        classes.add(cl)
+        as_ref[j] = version[j]
+        a_img = _prolong(flds[i], gg, ri)
+        a_ref = _prolong(flds[j], gg, rj)
+        what = (f"normalize call {k + 1}/{len(steps)} (image = object {i}, reference = object "
+                f"{j}, {cl}; update before the call: {upd['how'] if upd else 'none'})")
+        if not np.array_equal(objs[i].img, a_img) or not np.array_equal(objs[j].img, a_ref):
+            raise Violation("normalize-mutates", f"{what}: an earlier call modified the "
+                            "Image objects", t)
+        out, ratio = g.normalize(objs[i], objs[j], return_ratio=True)
+        # the same call on a fresh geometry with fresh Image objects of the same contents
+        gf = build_geometry(geo)
+        out_f, ratio_f = gf.normalize(_wrap(a_img.copy(), geo, data, "image"),
+                                      _wrap(a_ref.copy(), geo, data, "image"),
+                                      return_ratio=True)
+        want_i, mag_i = _reference(geo, _prolong(flds[i], gg, m))
+        want_j, mag_j = _reference(geo, _prolong(flds[j], gg, m))
+        want_ratio = want_j / want_i  # (positive data: integrals = magnitudes > 0)
+        kind = "normalize-history:" + cl.split(":")[0]
+        _compare(ratio, np.asarray(ratio_f, dtype=float), np.abs(want_ratio), 1e-12, geo, data,
+                 kind, f"{what}: returned ratio differs from the same call on a fresh geometry "
+                 "with fresh Image objects")
+        if out.img.shape != out_f.img.shape or not np.allclose(out.img, out_f.img, rtol=1e-12,
+                                                               atol=0):
+            raise Violation(kind, f"{what}: normalised image differs from the same call on a "
+                            "fresh geometry with fresh Image objects", t)
+        tol = max(_tol(geo, data, ri), _tol(geo, data, rj), 1e-12)
+        _compare(ratio, want_ratio, np.abs(want_ratio), 4 * tol, geo, data, "normalize-ratio",
+                 f"{what}: returned ratio vs I(ref)/I(img) of the current contents")
+        # the stated law, on the object that normalised: equal integrals
+        i_out = _integrate(g, out, geo, data, ri, "normalized image")
+        i_ref = _integrate(g, objs[j], geo, data, rj, "reference")
+        _compare(i_out, np.asarray(i_ref, dtype=float), 2 * mag_j, tol, geo, data, "normalize",
+                 f"{what}: integral of the normalized image vs integral of the reference")
+        _compare(i_ref, want_j, mag_j, _tol(geo, data, rj), geo, data,
+                 "weighted-sum" if list(rj) == m else f"resolution:{_wclass(geo)}-weight",
+                 f"{what}: integral of the re-used reference object: weighted sum of its "
+                 "current contents", a_ref.shape)
+    labs = _labels(geo, data, rs) + tuple(sorted(classes)) + (f"steps{len(steps)}",)
+    labs += tuple(sorted({"update-" + s["upd"]["how"] for s in steps if s["upd"]}))
+    return Outcome(True, _key(case), labs, evals=3 * len(steps))
+
+
+# ---------------------------------------------------------------------------------------
 
 _RULE = ("Hypothesis draws the geometry class (5), space_dim 1-3, native extents 1..8 (1..16 in "
          "1-D) as base x multiplier, voxel sizes (unit / power-of-two / generic), constructor "
-         "form (dimensions / voxel_size / **Image.shape_metadata() with both; weights positional "
+         "form (dimensions / voxel_size / **Image.shape_metadata() with both / in 1/4 of the "
+         "cases dimensions with a voxel size that does not belong to them: the shape metadata "
+         "of an image of the same domain on another voxelization with num_voxels replaced, or "
+         "an explicit foreign voxel_size; weights positional "
          "or by keyword), weights (python float / int / numpy float / array / Image), payload "
          "kind (scalar / vector / series, as array or Image) and per call a resolution (native, "
          "uniformly coarser, per-axis coarser incl. non-integer ratios, integer finer, per-axis "
@@ -1017,6 +1184,11 @@ _RULE = ("Hypothesis draws the geometry class (5), space_dim 1-3, native extents
          "resolution than the image in about 1/4 of the cases); shared_weights: 2-3 geometries (same or different "
          "weighted classes) built one after the other from one pool of weight objects "
          "(float64 / int64 / uint8 arrays, Images, floats), the first two share an array; "
+         "normalize_history: 2-4 normalize() calls on one geometry with image and reference "
+         "taken from a pool of 2-3 Image objects (own resolutions), the reference object of "
+         "the previous call re-used in 3/4 of the calls, and before 4/5 of the later calls one "
+         "object (every second time that reference) gets new contents (img replaced, assigned "
+         "in place or rescaled in place); "
          "distinct = the whole case")
 
 _SH = {"quick": 2, "thorough": 16}
@@ -1045,6 +1217,13 @@ PROP = Prop(
         "constructor call forms are those of the unit tests (positional weight, dimensions or "
         "voxel_size) and of the callers in the library / examples (weights by their documented "
         "keyword, **Image.shape_metadata() = consistent dimensions and voxel_size)",
+        "a voxel_size passed together with dimensions is overruled by the dimensions (comment in "
+        "Geometry.__init__): the reference voxel volume is prod(dimensions / num_voxels)",
+        "normalize_history: positive float64 data (non-zero integrals); every call is compared "
+        "with the same call on a fresh geometry with fresh Image objects of the current contents "
+        "(1e-12), the ratio with the einsum reference, and the integrals of result and reference "
+        "are taken on the object that normalised; Image contents are updated through the public "
+        "attribute img (assignment or in-place arithmetic)",
         "shared_weights: weight objects are compared bit-wise with copies taken before the "
         "first constructor call; integer weight arrays (masks / counts 0..3) are accepted by "
         "np.multiply in the constructors and give float64 volumes",
@@ -1064,5 +1243,7 @@ PROP = Prop(
             n=_N, shards=_SH),
         Sub("shared_weights", check_shared, gen=gen_shared,
             n={"quick": 2000, "thorough": 20000}, shards=_SH),
+        Sub("normalize_history", check_normalize_history, gen=gen_normalize_history,
+            n={"quick": 1600, "thorough": 20000}, shards=_SH),
     ],
 )
